@@ -141,7 +141,7 @@ func (l *vLogBuf) Write(p []byte) (int, error) {
 		if i < 0 {
 			break
 		}
-		l.lines = append(l.lines, string(l.buf.Next(i + 1)))
+		l.lines = append(l.lines, string(l.buf.Next(i+1)))
 	}
 	return len(p), nil
 }
@@ -504,7 +504,7 @@ var vTemplates = map[string][]string{
 		"%25%32%65%25%32%65%25%32%66{F}", "..%255c{F}", "{S}%252e{e}", "..%25%32%46outside%25%32%46{F}"},
 	"absolute": {"{T}/outside/{F}", "{t}%2Foutside%2F{F}", "/{F}", "%2F%2F{F}", "{t}%2Fbase%2Fpcap%2F{F}", "/etc/{F}",
 		"file:%2F%2F{t}%2F{F}", "C:%5C{F}", "{T}/{F}", "%2Ftmp%2F{F}", "{t}%2F{F}"},
-	"empty_seg":  {"//{F}", "/{F}", ".//{F}", "{F}//", "sub//{F}", "..//{F}", "/../{F}", "%2F%2F{F}", "/..%2Foutside%2F{F}"},
+	"empty_seg": {"//{F}", "/{F}", ".//{F}", "{F}//", "sub//{F}", "..//{F}", "/../{F}", "%2F%2F{F}", "/..%2Foutside%2F{F}"},
 	"odd_suffix": {"{S}{E}.", "{S}{E}x", "{S}.PCAP", "{S}{E}%20", "{S}{E}/", "{S}.pcap.pcapng", "{E}", "{S}.pcapngng", "{S}.txt",
 		"{S}.pcap.txt", "{S}..pcap", "{S}{E}~", "..{e}", "..{E}", "{S}{E}.pcap", "{S}.pcapng.pcap", "..%2Foutside%2F{S}{E}.", "{S}"},
 	"long": {"{L200}{E}", "{L249}{E}", "{L250}{E}", "{L251}{E}", "{L300}{E}", "{L1024}{E}", "{L5000}{E}", "..%2Foutside%2F{L300}{E}",
@@ -722,7 +722,7 @@ func (r *vRun) pair(w *vWorld, q vReq, sc vSched, pre *vScan) *vScan {
 		Path: vq("/upload/" + tails["A"]), Path2: vq("/upload/" + tails["B"]), Same: tails["A"] == tails["B"],
 		Body: vDigest(bodies["A"]), Body2: vDigest(bodies["B"]), SchedID: sc.ID,
 		HasExp: sc.HasExp && clss["A"] == "plain" && clss["B"] == "plain" && (sc.Pre || !exists),
-		ExpA: sc.Exp["A"], ExpB: sc.Exp["B"]}
+		ExpA:   sc.Exp["A"], ExpB: sc.Exp["B"]}
 	nreq := w.nreq
 	w.nreq++
 	step := func(u, what string) {
@@ -802,6 +802,24 @@ func (r *vRun) pair(w *vWorld, q vReq, sc vSched, pre *vScan) *vScan {
 	return post
 }
 
+// the names handed to the importer are read from the importer's log; if an arrival event is seen for an
+// ordinary upload but no log line is recognised, the log format has changed and the harness is blind
+func (r *vRun) calibrate() {
+	w := r.newWorld()
+	defer w.close()
+	vLog.takeQueued()
+	resp := w.raw("POST", "/upload/calibrate.pcap", []byte("VB-calibrate\n"), "")
+	w.quiesce(r.t)
+	deadline := time.Now().Add(2 * time.Second)
+	for resp.status == 200 && atomic.LoadInt64(&w.arrived) == 0 && time.Now().Before(deadline) {
+		time.Sleep(time.Millisecond)
+	}
+	q := vLog.takeQueued()
+	if atomic.LoadInt64(&w.arrived) > 0 && len(q) == 0 {
+		r.t.Fatalf("harness: arrival event seen but the importer's log line was not recognised")
+	}
+}
+
 func (r *vRun) sequence(seq []vReq) {
 	w := r.newWorld()
 	defer w.close()
@@ -842,6 +860,7 @@ func TestVerifUpload(t *testing.T) {
 	defer log.SetOutput(os.Stderr)
 
 	t0 := time.Now()
+	r.calibrate()
 	for _, seq := range in.Seqs {
 		r.sequence(seq)
 	}
